@@ -146,6 +146,14 @@ func (ex *Exec) AlignClosures() {
 			ex.AliasNotes = append(ex.AliasNotes, fmt.Sprintf("the contract written for %s is taken to mean %s (the anonymous functions of its parent were renumbered)", shortName(w.key), shortName(oldName)))
 		}
 	}
+	var all []*ssa.Function
+	var collect func(f *ssa.Function)
+	collect = func(f *ssa.Function) {
+		all = append(all, f)
+		for _, a := range f.AnonFuncs {
+			collect(a)
+		}
+	}
 	for _, p := range ex.Prog.AllPackages() {
 		if !strings.HasPrefix(p.Pkg.Path(), ex.ModulePath) {
 			continue
@@ -154,18 +162,87 @@ func (ex *Exec) AlignClosures() {
 			switch x := m.(type) {
 			case *ssa.Function:
 				visit(x)
+				collect(x)
 			case *ssa.Type:
 				for _, t := range []types.Type{x.Type(), types.NewPointer(x.Type())} {
 					ms := ex.Prog.MethodSets.MethodSet(t)
 					for i := 0; i < ms.Len(); i++ {
 						if fn := ex.Prog.MethodValue(ms.At(i)); fn != nil && fn.Synthetic == "" {
 							visit(fn)
+							collect(fn)
 						}
 					}
 				}
 			}
 		}
 	}
+	// A function under contract that was RENAMED (or an anonymous function that was hoisted to a named one):
+	// the contract's function no longer exists, it did when spec/functions_baseline.json was written, and exactly
+	// one function of the same package is new since then and has the same signature - the contract is taken to
+	// mean that one (it keeps the contract's name in obligations, pins and scopes).
+	if len(ex.FuncsBaseline) == 0 {
+		return
+	}
+	present := map[string]bool{}
+	for _, f := range all {
+		present[ex.FuncKey(f)] = true
+	}
+	var keys []string
+	for k := range ex.Contracts {
+		keys = append(keys, k)
+	}
+	sort.Strings(keys)
+	for _, key := range keys {
+		sig, known := ex.FuncsBaseline[key]
+		if present[key] || !known {
+			continue
+		}
+		pkg := ex.Contracts[key].Pkg
+		var cands []*ssa.Function
+		for _, f := range all {
+			if f.Pkg == nil || f.Pkg.Pkg.Path() != pkg {
+				continue
+			}
+			if _, aliased := ex.closureAlias[f]; aliased {
+				continue
+			}
+			if _, old := ex.FuncsBaseline[ex.FuncKey(f)]; old {
+				continue
+			}
+			if SigString(f) == sig {
+				cands = append(cands, f)
+			}
+		}
+		if len(cands) == 1 {
+			ex.AliasNotes = append(ex.AliasNotes, fmt.Sprintf("the contract written for %s is taken to mean %s (new since the baseline, same signature: renamed)", shortName(key), shortName(ex.FuncKey(cands[0]))))
+			ex.closureAlias[cands[0]] = key
+			present[key] = true
+		}
+	}
+}
+
+// SigString: receiver and signature (types only) of a function, for the baseline of function names.
+func SigString(f *ssa.Function) string {
+	var b strings.Builder
+	if r := f.Signature.Recv(); r != nil {
+		b.WriteString("(" + r.Type().String() + ") ")
+	}
+	b.WriteString("func(")
+	for i := 0; i < f.Signature.Params().Len(); i++ {
+		if i > 0 {
+			b.WriteString(", ")
+		}
+		b.WriteString(f.Signature.Params().At(i).Type().String())
+	}
+	b.WriteString(") (")
+	for i := 0; i < f.Signature.Results().Len(); i++ {
+		if i > 0 {
+			b.WriteString(", ")
+		}
+		b.WriteString(f.Signature.Results().At(i).Type().String())
+	}
+	fmt.Fprintf(&b, ") variadic:%v free:%d", f.Signature.Variadic(), len(f.FreeVars))
+	return b.String()
 }
 
 // LocalInfo: one source-level name of a function - a captured variable or a local - by position.
